@@ -2,9 +2,9 @@ package main
 
 import (
 	"fmt"
-	"os"
 	"go/token"
 	"go/types"
+	"os"
 	"sort"
 	"strings"
 
@@ -115,7 +115,7 @@ func ruleE4(c *Ctx) []Ob {
 	return s.obs
 }
 
-func e4Function(c *Ctx, s *obSink, fn *ssa.Function, closure map[*ssa.Function]bool) {
+func e4Function(c *Ctx, s *obSink, fn *ssa.Function, closure map[*ssa.Function]bool) *linAn {
 	in := inputParam(fn)
 	a := newLinAn(c, fn, in)
 	a.condFacts()
@@ -249,7 +249,7 @@ func e4Function(c *Ctx, s *obSink, fn *ssa.Function, closure map[*ssa.Function]b
 					obs = append(obs, boundsOb{off, ins, "recorded-extent off>=0"}, boundsOb{sz, ins, "recorded-extent sz>=0"},
 						boundsOb{addF(addF(symF("L"), off, -1), sz, -1), ins, "recorded-extent off+sz<=len"})
 				}
-				if callee != nil && shortFn(callee) == "unknownFields.Copy" {
+				if callee != nil && shortFn(callee) == "unknownFields.Copy" && s != nil {
 					s.check(len(x.Call.Args) == 2 && x.Call.Args[1] == in, fname+":copy-arg", c.InstrPos(x),
 						"Copy receives the buffer the extents were recorded against", "Copy is given a different slice than the one the extents were recorded against")
 				}
@@ -358,7 +358,9 @@ func e4Function(c *Ctx, s *obSink, fn *ssa.Function, closure map[*ssa.Function]b
 							good = true
 						}
 					}
-					s.check(good, fname+":extent-shape", c.InstrPos(sl), "copies b[x.off : x.off+x.sz] for the recorded extents", "slice of the input in Copy is not a recorded extent [x.off : x.off+x.sz]")
+					if s != nil {
+						s.check(good, fname+":extent-shape", c.InstrPos(sl), "copies b[x.off : x.off+x.sz] for the recorded extents", "slice of the input in Copy is not a recorded extent [x.off : x.off+x.sz]")
+					}
 				}
 			}
 		}
@@ -481,6 +483,9 @@ func e4Function(c *Ctx, s *obSink, fn *ssa.Function, closure map[*ssa.Function]b
 		}
 	}
 
+	if s == nil {
+		return a
+	}
 	cnt := map[string]int{}
 	for _, o := range obs {
 		ok, why := a.prove(o.want, o.at.Block())
@@ -492,6 +497,7 @@ func e4Function(c *Ctx, s *obSink, fn *ssa.Function, closure map[*ssa.Function]b
 			s.bad(key, c.InstrPos(o.at), fmt.Sprintf("cannot prove %s >= 0 from the dominating guards (possible out-of-range access of the input, or a broken (n, err) contract): %s", o.want, c.srcLine(o.at.Pos())))
 		}
 	}
+	return a
 }
 
 func phiName(p *ssa.Phi) string {
